@@ -66,6 +66,10 @@ package par
 //@ ginv workBound: forall x int {gF[x]} :: !gHeld[x] && fld(Work, running)[x] > 0 ==> sum4(gS[x], gK[x], gX[x], gF[x]) <= fld(Work, running)[x]
 //@ ginv workSpawned: forall x int {gSpawned[x]} :: gSpawned[x] >= 0 && (fld(Work, running)[x] > 0 ==> gSpawned[x] <= fld(Work, running)[x]) && sum4(gS[x], gK[x], gX[x], gF[x]) <= gSpawned[x]
 //@ ginv workDone: forall x int {gS[x]} :: !gHeld[x] && fld(Work, running)[x] > 0 && fld(Work, waiting)[x] == fld(Work, running)[x] ==> gS[x] == 0
+// While somebody sleeps, every queued item has a signalled (not yet running) runner of its
+// own: an Add that finds a sleeper always wakes one (no idle runner is left asleep with
+// unclaimed work in the queue).
+//@ ginv workSignalled: forall x int {gS[x]} :: !gHeld[x] && gS[x] > 0 && fld(Work, running)[x] > 0 ==> len(fld(Work, todo)[x]) <= gK[x]
 //@ ginv workAwake: forall x int {gS[x]} :: !gHeld[x] && len(fld(Work, todo)[x]) > 0 && gX[x] == 0 && fld(Work, running)[x] > 0 ==> gS[x] < fld(Work, running)[x]
 //
 //@ rely workRely: forall x int {fld(Work, waiting)[x]} {fld(Work, todo)[x]} {gS[x]} {gK[x]} {gX[x]} {gF[x]} :: (x == myHeld && x != 0 ==> fld(Work, waiting)[x] == old(fld(Work, waiting))[x] && sameSlice(fld(Work, todo)[x], old(fld(Work, todo))[x]) && fld(Work, added)[x] == old(fld(Work, added))[x] && gS[x] == old(gS)[x] && gK[x] == old(gK)[x] && gX[x] == old(gX)[x] && gF[x] == old(gF)[x]) && (myR == 1 && sum4(old(gS)[x], old(gK)[x], old(gX)[x], old(gF)[x]) <= fld(Work, running)[x] - 1 ==> sum4(gS[x], gK[x], gX[x], gF[x]) <= fld(Work, running)[x] - 1) && (myF == 1 && old(gF)[x] >= 1 ==> gF[x] >= 1) && (x == myDo && x != 0 ==> gSpawned[x] == old(gSpawned)[x]) && gSpawned[x] >= old(gSpawned)[x] && (myR == 1 && sum4(old(gS)[x], old(gK)[x], old(gX)[x], old(gF)[x]) <= old(gSpawned)[x] - 1 ==> sum4(gS[x], gK[x], gX[x], gF[x]) <= gSpawned[x] - 1)
@@ -127,7 +131,7 @@ package par
 //@   at call (*sync.Mutex).Unlock#2: requires forall K {at(w.todo,K)} :: lo(w.todo) <= K && K < hi(w.todo) && K != lo(w.todo) + i ==> at(w.todo,K) == gSnapArr[K]
 //@   at call (*sync.Mutex).Unlock#2: requires lo(w.todo) + i < hi(w.todo) ==> at(w.todo, lo(w.todo) + i) == gSnapArr[lo(w.todo) + gSnapLen - 1]
 //@   loop 1: invariant myHeld == 0 && myR + myF == 1 && myR >= 0 && myF >= 0 && (myR == 1 ==> sum4(gS[w], gK[w], gX[w], gF[w]) <= gSpawned[w] - 1) && gSpawned[w] <= w.running && (myF == 1 ==> gF[w] >= 1)
-//@   loop 2: invariant myHeld == w && gHeld[w] && myR == 1 && myF == 0 && sum4(gS[w], gK[w], gX[w], gF[w]) <= gSpawned[w] - 1 && gSpawned[w] <= w.running && w.waiting == gS[w] + gK[w] + gX[w]
+//@   loop 2: invariant myHeld == w && gHeld[w] && myR == 1 && myF == 0 && sum4(gS[w], gK[w], gX[w], gF[w]) <= gSpawned[w] - 1 && gSpawned[w] <= w.running && w.waiting == gS[w] + gK[w] + gX[w] && (gS[w] > 0 ==> len(w.todo) <= gK[w] + 1)
 //@   ensures myHeld == 0
 
 // Do: starts exactly n-1 runner goroutines and becomes a runner itself, on a Work
